@@ -353,7 +353,11 @@ impl Monitor for Mon07 {
             if frac != 0 {
                 let part = mul_div_floor(pr.size, frac, d);
                 let dir = if pr.long { margined_perp::margined_vamm::Direction::AddToAmm } else { margined_perp::margined_vamm::Direction::RemoveFromAmm };
-                ok &= pass(part > 0 && it.output_amount(*v, dir, part).is_some(), "cannot_fill_partial", out, &mut why);
+                // a slice that rounds down to nothing is an empty trade: there is nothing the vAMM could fail to fill
+                if part == 0 {
+                    out.count("partial_slice_rounds_to_zero");
+                }
+                ok &= pass(part == 0 || it.output_amount(*v, dir, part).is_some(), "cannot_fill_partial", out, &mut why);
             }
             if let Some(q) = q_full {
                 let p = pnl(pr.long, q, pr.notional);
